@@ -152,7 +152,7 @@ def sortNat (l : List Nat) : List Nat := (l.toArray.qsort (· < ·)).toList
 
 def idsStr (l : List Nat) : String := if l.isEmpty then "-" else ",".intercalate ((sortNat l).map toString)
 
-def okKind (t : String) : Bool := t = "200" || t = "202" || t = "d200"
+def okKind (t : String) : Bool := t = "200" || t = "202" || t = "d200" || t = "t200"
 
 def collapse : List String → List String
   | a :: b :: t => if a = b then collapse (b :: t) else a :: collapse (b :: t)
